@@ -111,12 +111,10 @@ def fig7 : Handshake := ⟨[3, 3, 3, 3], none, [1, 1, 1, 1, 1, 1, 1, 1]⟩
 def fig8Block : List Nat :=
   [0x00, 8, 1, 1, 1, 1, 1, 1, 1, 1, 0x0f, 4, 3, 3, 3, 3, 0x10, 4, 2, 2, 2, 2, 0x04, 1, 7]
 
-theorem fig8Block_bytes : BytesOk fig8Block := by unfold fig8Block; bytes_ok
-
 example : accepted (onPeerBlock .server fig8 fig8Block) = true := rfl
 example : accepts pinnedFields .server fig8Block = true ∧
     ∃ its, parseItems fig8Block.length fig8Block = some its ∧ authenticItems .server fig8 its = true :=
-  (tp_block_auth_iff .server fig8 fig8Block fig8Block_bytes).mp rfl
+  (tp_block_auth_iff .server fig8 fig8Block (by unfold fig8Block; bytes_ok)).mp rfl
 
 /-- the same bytes without a Retry: retry_source_connection_id must not be there (the seeded change that folded the
     `(None, Some(_))` arm into the no-op arm accepts this block) -/
